@@ -245,6 +245,29 @@ func (s *Swarm) Join(peers ...string) (errs []error) {
 	return
 }
 
+// payload is the gossip data we hand over to the mesh. The mesh combines the
+// payloads queued for the same link using pending.Merge(new) and keeps what it
+// gets back, whereas State.Merge leaves only the delta in its argument and
+// returns that delta.
+type payload struct {
+	*event.State
+}
+
+// Merge combines this payload with another one and returns a payload which
+// contains the updates of both. Neither of them is modified, since the same
+// payload might be queued for several links at once.
+func (p payload) Merge(other mesh.GossipData) mesh.GossipData {
+	merged := event.NewState("")
+	for _, data := range []mesh.GossipData{p, other} {
+		for _, buf := range data.Encode() {
+			if state, err := event.DecodeState(buf); err == nil {
+				merged.Merge(state)
+			}
+		}
+	}
+	return payload{merged}
+}
+
 // Merge merges the incoming state and returns a delta
 func (s *Swarm) merge(buf []byte) (mesh.GossipData, error) {
 
@@ -276,7 +299,10 @@ func (s *Swarm) merge(buf []byte) (mesh.GossipData, error) {
 		}
 	})
 
-	return delta, nil
+	if delta == nil {
+		return nil, nil
+	}
+	return payload{delta.(*event.State)}, nil
 }
 
 // NumPeers returns the number of connected peers.
@@ -295,7 +321,7 @@ func (s *Swarm) NumPeers() int {
 
 // Gossip returns the state of everything we know; gets called periodically.
 func (s *Swarm) Gossip() (complete mesh.GossipData) {
-	return s.state
+	return payload{s.state}
 }
 
 // OnGossip merges received data into state and returns "everything new I've just
@@ -356,7 +382,7 @@ func (s *Swarm) Notify(ev event.Event, enabled bool) {
 	}
 
 	// Broadcasting just this operation
-	s.gossip.GossipBroadcast(op)
+	s.gossip.GossipBroadcast(payload{op})
 }
 
 // Contains checks whether an event is currently triggered within the cluster.
